@@ -931,14 +931,16 @@ Proof.
 Qed.
 
 Theorem g_get_spec g a b :
-  WFg g -> Rg g -> a <= b ->
+  WFg g -> Rg g -> (a <= b \/ g_entries g = []) ->
   exists g', g_get g a b = Some g'
     /\ WFg g' /\ Rg g' /\ g_sup g' = g_sup g /\ g_hastag g' = g_hastag g
     /\ g_entries g' = map_members (fun m => ts_get m a b) (g_entries g)
     /\ Forall (fun e => m_t (ts_get (e_mem e) a b) = filter (fun t => (a <=? t) && (t <=? b)) (m_t (e_mem e))) (g_entries g).
 Proof.
   intros (Hinc & Hc & Hwf) HR Hab. unfold g_get.
-  destruct (b <? a) eqn:E; [lia|].
+  assert (E : (b <? a) && negb (match g_entries g with [] => true | _ => false end) = false).
+  { destruct Hab as [Hab|Hab]; [destruct (b <? a) eqn:E; [lia|reflexivity]|rewrite Hab; apply andb_false_r]. }
+  rewrite E.
   set (es' := map_members (fun m => ts_get m a b) (g_entries g)).
   assert (Hk : map e_key es' = g_keys g) by apply map_members_keys.
   assert (Hinc' : incr (map e_key es')) by (rewrite Hk; exact Hinc).
@@ -961,8 +963,8 @@ Proof.
   apply Forall_forall. intros e He. apply (Hall e He).
 Qed.
 
-Theorem g_get_inverted g a b : b < a -> g_get g a b = None.
-Proof. intros H. unfold g_get. destruct (b <? a) eqn:E; [reflexivity|lia]. Qed.
+Theorem g_get_inverted g a b : b < a -> g_entries g <> [] -> g_get g a b = None.
+Proof. intros H Hn. unfold g_get. destruct (b <? a) eqn:E; [|lia]. destruct (g_entries g); [congruence|reflexivity]. Qed.
 
 (* ================================================================== *)
 (* 10. merge_group                                                      *)
@@ -1355,8 +1357,11 @@ Proof.
     apply nth_error_In in E. destruct (getby_intervals_spec g bins i (Some g') E) as (a & b & _ & Hs & _).
     symmetry in Hs. destruct (select_pred_spec g _ g' W Hs) as (_ & W' & R' & _). auto.
   - destruct (g_restrict_spec g ep W Hok) as (g'' & Hg & W' & R' & _). rewrite Hg in H. inversion H; subst. auto.
-  - destruct (Z_lt_le_dec b a) as [Hlt|Hle]; [rewrite (g_get_inverted g a b Hlt) in H; discriminate|].
-    destruct (g_get_spec g a b W R Hle) as (g'' & Hg & W' & R' & _). rewrite Hg in H. inversion H; subst. auto.
+  - assert (Hcase : (a <= b \/ g_entries g = []) \/ (b < a /\ g_entries g <> [])).
+    { destruct (Z_lt_le_dec b a) as [Hlt|Hle]; [|left; left; exact Hle].
+      destruct (g_entries g) eqn:Eg; [left; right; reflexivity|right; split; [exact Hlt|discriminate]]. }
+    destruct Hcase as [Hc|[Hlt Hn]]; [|rewrite (g_get_inverted g a b Hlt Hn) in H; discriminate].
+    destruct (g_get_spec g a b W R Hc) as (g'' & Hg & W' & R' & _). rewrite Hg in H. inversion H; subst. auto.
   - destruct (roundtrip_spec g W R) as (g'' & Hg & W' & R' & _). rewrite Hg in H. inversion H; subst. auto.
   - destruct (select_mask g m1) as [ga|] eqn:E1; [|discriminate]. destruct (select_mask g m2) as [gb|] eqn:E2; [|discriminate].
     destruct (select_mask_spec g m1 ga E1) as [_ H1]. destruct (select_mask_spec g m2 gb E2) as [_ H2].
@@ -1457,8 +1462,11 @@ Proof.
     intros e' He'. rewrite He in He'. apply in_map_iff in He'. destruct He' as (e & <- & Hin).
     exists e, (fun x => mem x ep). split; [exact Hin|]. split; [reflexivity|].
     rewrite Forall_forall in Ht. apply Ht. exact Hin.
-  - destruct (Z_lt_le_dec b a) as [Hlt|Hle]; [rewrite (g_get_inverted g a b Hlt) in H; discriminate|].
-    destruct (g_get_spec g a b W R Hle) as (g'' & Hg & _ & _ & _ & _ & He & Ht). rewrite Hg in H. inversion H; subst g''.
+  - assert (Hcase : (a <= b \/ g_entries g = []) \/ (b < a /\ g_entries g <> [])).
+    { destruct (Z_lt_le_dec b a) as [Hlt|Hle]; [|left; left; exact Hle].
+      destruct (g_entries g) eqn:Eg; [left; right; reflexivity|right; split; [exact Hlt|discriminate]]. }
+    destruct Hcase as [Hc|[Hlt Hn]]; [|rewrite (g_get_inverted g a b Hlt Hn) in H; discriminate].
+    destruct (g_get_spec g a b W R Hc) as (g'' & Hg & _ & _ & _ & _ & He & Ht). rewrite Hg in H. inversion H; subst g''.
     intros e' He'. rewrite He in He'. unfold map_members in He'. apply in_map_iff in He'. destruct He' as (e & <- & Hin).
     exists e, (fun t => (a <=? t) && (t <=? b)). split; [exact Hin|]. split; [reflexivity|].
     rewrite Forall_forall in Ht. apply (Ht e Hin).
